@@ -1081,6 +1081,11 @@ def link_program(rng, ncases, lanes=ALL_LANES):
                                       "prefill": rng.choice([None, None, "00" * 40])})
             elif rd < 0.35:
                 prog["steps"].append({"op": "r_read", "lane": lane, "h": l, "n": 0, "copy": True})
+            if rel and rng.random() < 0.6:
+                # the process changes its working directory between opening the linker on a
+                # RELATIVE target and committing it: the link must name the file that was opened
+                # (and hashed), not whatever that relative path means at commit time
+                prog["steps"].append({"op": "chdir", "lane": lane, "to": rng.choice(["elsewhere", "/", "base", "root"])})
             prog["steps"].append({"op": "l_commit", "lane": lane, "h": l})
         if rel:
             prog["steps"].append({"op": "chdir", "lane": lane, "to": "/"})
